@@ -132,6 +132,9 @@ Record body_case := {
   b_zip : bool; b_minlen : Z;         (* proxy `compression` configured, its minLength *)
   b_ae : option string;               (* the client's Accept-Encoding (None = absent) *)
   b_gz : string;                      (* oracle: gzip of the body the backend's framing carries *)
+  b_retry : bool;                     (* pool retryPolicy (2 attempts) + failureCodes [b_first_status] *)
+  b_first_status : Z; b_first_body : string;   (* the backend's answer to the first request it receives *)
+  b_obbody2 : string;                 (* body of the second complete request the backend received *)
   b_bad : bool;                       (* panic or no response head at all *)
   b_ostatus : Z; b_obody : string; b_oframe : bool;
   b_oheads : Z; b_ocomplete : Z; b_obbody : string
@@ -163,8 +166,31 @@ Definition resp_wire (c : body_case) : wire string :=
     {| w_enc := EncChunked ok; w_sent := if ok then b_gz c else EmptyString |}
   else resp_wire0 c.
 
+(** with a retry policy the backend fails the first attempt with a failure code: a buffered
+    request is sent again (same body) and the client gets the second answer; a streamed
+    request (limit -1) cannot be sent again: the client gets the first answer *)
+Definition first_wire (c : body_case) : wire string :=
+  {| w_enc := EncCL (slen (b_first_body c)); w_sent := b_first_body c |}.
+Definition streamed_with (norm : Z -> Z) (c : body_case) : bool :=
+  norm (effective (c_path (b_cfg c)) (c_srv (b_cfg c))) <? 0.
+Definition answer_with (norm : Z -> Z) (c : body_case) : Z * wire string :=
+  if b_retry c && streamed_with norm c then (b_first_status c, first_wire c) else (b_status c, resp_wire c).
+
 Definition body_model (c : body_case) : outcome string :=
-  serve slen stake EmptyString (b_cfg c) (req_wire c) (b_status c) (resp_wire c).
+  let '(st, rw) := answer_with norm_limit c in
+  serve slen stake EmptyString (b_cfg c) (req_wire c) st rw.
+
+(** a retried buffered request reaches the backend twice with the same body: seen as one *)
+Definition fold_retry (c : body_case) (o : observed string) : observed string :=
+  if b_retry c && negb (streamed_with spec_norm c) && (ob_complete o =? 2) && String.eqb (b_obbody2 c) (ob_bbody o)
+  then {| ob_status := ob_status o; ob_body := ob_body o; ob_frame := ob_frame o; ob_heads := 1;
+          ob_complete := 1; ob_bbody := ob_bbody o |}
+  else o.
+
+(** whatever the backend was handed as a complete request body - on the first attempt or on
+    a retry - is the client's complete body *)
+Definition prop_retry (c : body_case) (o : observed string) : bool :=
+  if b_retry c && (2 <=? ob_complete o) then String.eqb (b_obbody2 c) (wire_body stake EmptyString (req_wire c)) else true.
 
 (** "a body shorter than its declared length produces an error status", judged on the
     backend's own framing also when the proxy compresses: never a well-framed success *)
@@ -175,11 +201,13 @@ Definition prop_short_resp (c : body_case) (o : observed string) : bool :=
   then (400 <=? ob_status o) || negb (ob_frame o) else true.
 
 Definition check_body (c : body_case) : result :=
-  let o := body_obs c in
+  let o := fold_retry c (body_obs c) in
+  let '(st, rw) := answer_with spec_norm c in
   if b_bad c then (false, false, 1%N, 0%N) else
   (corr_serve EmptyString String.eqb (body_model c) o,
-   prop_serve slen stake EmptyString String.eqb (b_cfg c) (req_wire c) (b_status c) (resp_wire c) o && prop_short_resp c o,
-   (class_serve slen (b_cfg c) (req_wire c) (resp_wire0 c) o + bN (compressed c) 128)%N, 0%N).
+   prop_serve slen stake EmptyString String.eqb (b_cfg c) (req_wire c) st rw o && prop_short_resp c o &&
+   prop_retry c (body_obs c),
+   (class_serve slen (b_cfg c) (req_wire c) (resp_wire0 c) o + bN (compressed c) 128 + bN (b_retry c) 256)%N, 0%N).
 
 Definition explain_body (c : body_case) := body_model c.
 
